@@ -312,49 +312,54 @@ fn arb_scenario(max_workers: usize, max_tasks: usize) -> impl Strategy<Value = S
 pub fn run(ctx: &Ctx) {
     ctx.rule("stress mode: scenarios of 1..8 workers, up to 12 tasks each with a panic flag and a busy time, an optional witness batch (N tasks that each wait for the other N-1 to have started), a second round of tasks (a restarted worker panicking again), ended by stop()+drop or by drop alone, on the real OS scheduler with generated submission gaps. History invariants: every submitted task starts exactly once and, unless it panics, finishes exactly once; tasks after a panic still run; the witness completes (pool back to N usable workers); never more than N tasks between start and finish; stop/drop return within 10 s; afterwards every worker thread that ran a task exits (thread-local exit guards). Non-trivial: scenario contains a panic or omits stop; distinct by scenario");
     ctx.assume("stress mode samples OS interleavings (a race can be missed, never falsely reported); the recovery thread is allowed to stay blocked forever; stop() before start() is outside the quantifier");
-    let cases = if std::env::var("HV_C08_ONLY_SCHED").is_ok() { 0 } else { ctx.tier.pick(600u32, 20_000u32) };
-    let nshards = 8;
-    crate::engine::shards(nshards, |i| {
-        pt::run(
-            ctx,
-            "stress",
-            pt::Opts::new(cases / nshards as u32).salt(800 + i as u64).shrink_iters(12),
-            arb_scenario(8, 12),
-            |s| serde_json::to_value(s).unwrap(),
-            |s| {
-                let panics = s.tasks.iter().chain(s.second_round.iter()).filter(|t| t.panics).count();
-                let nt = panics > 0 || s.end == End::DropOnly;
-                let mut labels = vec!["stress"];
-                if panics > 0 {
-                    labels.push("with-panic");
-                }
-                if panics >= 2 {
-                    labels.push(">=2-panics");
-                }
-                if s.end == End::DropOnly {
-                    labels.push("drop-without-stop");
-                }
-                if s.witness {
-                    labels.push("witness-batch");
-                }
-                if s.end_early {
-                    labels.push("shutdown-with-queued-tasks");
-                }
-                ctx.case(hash_of(&format!("{:?}", s)), nt, &labels);
-                ctx.sample(labels.last().unwrap(), || serde_json::to_value(s).unwrap());
-                run_stress(s)
-            },
-        );
-    });
-    if !ctx.has_failed() && std::env::var("HV_C08_NO_SCHED").is_err() {
-        if cfg!(humphrey_verif_shim) {
-            super::c08_sched::run(ctx);
-        } else {
-            // ./check fell back to a build without the scheduling shim (the pool's sources no longer compile against it)
-            ctx.inconclusive("schedule mode skipped: thread/pool.rs and thread/recovery.rs do not build against the scheduling shim (they use std items the shim does not wrap); stress mode only");
-            ctx.label("sched:skipped-no-shim", 1);
-        }
+    // Both modes run in child processes of this binary (see c08_sched::run): every started pool leaves its detached
+    // recovery thread behind, and schedule mode spawns thousands of short-lived threads per second, so the work is cut
+    // into chunks with a bounded number of pools per process.
+    if !cfg!(humphrey_verif_shim) {
+        // ./check fell back to a build without the scheduling shim (the pool's sources no longer compile against it)
+        ctx.inconclusive("schedule mode skipped: thread/pool.rs and thread/recovery.rs do not build against the scheduling shim (they use std items the shim does not wrap); stress mode only");
+        ctx.label("sched:skipped-no-shim", 1);
     }
+    super::c08_sched::run(ctx);
+}
+
+/// The stress-mode share of one chunk (child process).
+pub fn run_stress_chunk(ctx: &Ctx, chunk: usize, nchunks: usize) {
+    let total = if std::env::var("HV_C08_ONLY_SCHED").is_ok() { 0 } else { ctx.tier.pick(600u32, 20_000u32) };
+    let cases = total / nchunks as u32 + if (chunk as u32) < total % nchunks as u32 { 1 } else { 0 };
+    if cases == 0 {
+        return;
+    }
+    pt::run(
+        ctx,
+        "stress",
+        pt::Opts::new(cases).salt(800 + chunk as u64).shrink_iters(12),
+        arb_scenario(8, 12),
+        |s| serde_json::to_value(s).unwrap(),
+        |s| {
+            let panics = s.tasks.iter().chain(s.second_round.iter()).filter(|t| t.panics).count();
+            let nt = panics > 0 || s.end == End::DropOnly;
+            let mut labels = vec!["stress"];
+            if panics > 0 {
+                labels.push("with-panic");
+            }
+            if panics >= 2 {
+                labels.push(">=2-panics");
+            }
+            if s.end == End::DropOnly {
+                labels.push("drop-without-stop");
+            }
+            if s.witness {
+                labels.push("witness-batch");
+            }
+            if s.end_early {
+                labels.push("shutdown-with-queued-tasks");
+            }
+            ctx.case(hash_of(&format!("{:?}", s)), nt, &labels);
+            ctx.sample(labels.last().unwrap(), || serde_json::to_value(s).unwrap());
+            run_stress(s)
+        },
+    );
 }
 
 pub fn replay(_ctx: &Ctx, kind: &str, case: &J) -> Vec<Fail> {
